@@ -69,7 +69,7 @@ def gen_problem(seed):
     cons = [ReserveResourceConstraint(Cores, slice(0, 1))]
     if r.random() < 0.5:
         cons.append(LocationConstraint(r.randrange(n), r.choice(live)))
-    if n > 3 and r.random() < 0.5:
+    if n > 3 and r.random() < 0.7:
         a, b = r.sample(range(n), 2)
         if not any(isinstance(c, LocationConstraint) and c.vertex in (a, b) for c in cons):
             cons.append(SameChipConstraint([a, b]))
@@ -132,7 +132,17 @@ def do_call(spec):
             args = [m, vr, nets, cons]
             before = [snap(a) for a in args]
             which = fn[6:]
-            if which == "sa":
+            if which == "seqcustom":
+                # caller-supplied orders, passed as real lists (they are arguments too)
+                r = random.Random(seed + 5)
+                vorder = sorted(vr)
+                r.shuffle(vorder)
+                corder = [c for c in m]
+                r.shuffle(corder)
+                args += [vorder, corder]
+                before = [snap(a) for a in args]
+                p = sequential.place(vr, nets, m, cons, vertex_order=vorder, chip_order=corder)
+            elif which == "sa":
                 p = sa_place(vr, nets, m, cons, effort=0.1, random=random.Random(seed))
             elif which == "rand":
                 p = rand.place(vr, nets, m, cons, random=random.Random(seed))
@@ -272,7 +282,7 @@ def do_call(spec):
     return result, before, after
 
 
-FNS = ["place_sequential", "place_hilbert", "place_rcm", "place_breadth_first", "place_rand", "place_sa",
+FNS = ["place_sequential", "place_seqcustom", "place_seqcustom", "place_hilbert", "place_rcm", "place_breadth_first", "place_rand", "place_sa",
        "allocate", "route", "route", "tables", "minimise_tables", "minimise_oc", "minimise_rdr", "bitfield", "controller", "boot", "hexagons", "hexagons"]
 
 
